@@ -101,14 +101,15 @@ def run(ctx, chk):
     # ---- V4 repair chain (details of wipe in C04.T6; here: agreement of the constants)
     from . import C04
     info = C04.wipe_sequence(fb, chk)
-    if info is not None:
-        seq = info['seq']
-        vals = [v for _, v in seq]
+    for info in (info['all'] if info is not None else []):
+        img = info['image']
+        hf = {name: (off, w) for off, w, name in C04.header_fields(fb)}
+        vals = [C04.image_value(img, *hf['magic0']), C04.image_value(img, *hf['magic1']), C04.image_value(img, *hf['segsize'])]
         magic_ok = magic is not None and 'bytes' in magic and vals[:2] == [int.from_bytes(bytes.fromhex(magic['bytes'])[i:i + 4], 'little') for i in (0, 4)]
         chk.ob('C16.V4', 'repair:wipe-writes-the-validated-magic', magic_ok, info['where'], 'wipe writes magic words %s' % [hex(v) if isinstance(v, int) else v for v in vals[:2]])
         chk.ob('C16.V4', 'repair:wipe-truncates-the-file', bool(info['truncates']), info['where'],
                'the re-created file is cut to the documented size via %s' % info['truncates'] if info['truncates'] else
                'wipe never truncates: a longer unusable file keeps its old length (not the documented 72 bytes)')
-        chk.ob('C16.V4', 'repair:declared-size-is-segment-size', len(vals) > 2 and vals[2] == 'segsize' and info['segsize_arg'] == seg_val, info['where'],
-               'wipe declares size <- its segsize argument; ShmWriter::new passes %s' % info['segsize_arg'])
+        chk.ob('C16.V4', 'repair:declared-size-is-segment-size', vals[2] is not None and vals[2] == info['segsize_arg'] == seg_val == info['map_len'], info['where'],
+               'wipe declares size %s; segment_size() = %s; header + record rounded = %s; mapped length = %s' % (vals[2], seg_val, info['segsize_arg'], info['map_len']))
     C04.check_new(fb, chk, rule_prefix='C16.V4')
